@@ -7,11 +7,14 @@ import (
 	"fmt"
 	"math/rand"
 	"strings"
+
+	"github.com/labstack/echo/v4"
 )
 
 type c01Case struct {
 	Routes []rRoute `json:"routes"`
 	Dirty  *rReq    `json:"dirty,omitempty"` // served first through the same Echo: the probe gets its recycled context
+	Pre    bool     `json:"pre,omitempty"`   // a (no-op) Pre middleware is installed: routing happens inside the Pre chain
 	Req    rReq     `json:"req"`
 }
 
@@ -87,6 +90,13 @@ func c01Run(ci any) Result {
 	var cur rObs
 	e := rEcho(c.Routes, &cur)
 	tags := []string{}
+	if c.Pre {
+		e.Pre(func(next echo.HandlerFunc) echo.HandlerFunc { return func(ctx echo.Context) error { return next(ctx) } })
+		tags = append(tags, "with-pre")
+	}
+	if c.Req.Raw {
+		tags = append(tags, "rawpath")
+	}
 	if c.Dirty != nil {
 		rServe(e, &cur, *c.Dirty)
 		tags = append(tags, "recycled-context")
@@ -132,6 +142,12 @@ func c01Gen(r *rand.Rand, tier string) []any {
 		}
 		for k := 0; k < per; k++ {
 			c := &c01Case{Routes: routes, Req: rReq{Method: rGenMethod(r, routes), Path: rGenPath(r, routes)}}
+			c.Pre = r.Intn(5) == 0
+			if r.Intn(5) == 0 {
+				// percent-encoded request target: the router must see RawPath, not the decoded Path
+				c.Req.Raw = true
+				c.Req.Path = strings.Replace(c.Req.Path, "a", []string{"%2F", "%61", "%2f", "%3A"}[r.Intn(4)], 1+r.Intn(2))
+			}
 			if r.Intn(3) == 0 {
 				// a longer predecessor request through the same Echo, so the probe runs on its recycled context
 				d := rReq{Method: rGenMethod(r, routes), Path: rGenPath(r, routes) + "/zzzz/yyyy"}
@@ -149,6 +165,11 @@ func c01Shrink(ci any) []any {
 	if c.Dirty != nil {
 		d := *c
 		d.Dirty = nil
+		out = append(out, &d)
+	}
+	if c.Pre {
+		d := *c
+		d.Pre = false
 		out = append(out, &d)
 	}
 	for _, rs := range rShrinkRoutes(c.Routes) {
